@@ -133,6 +133,9 @@ fn run_case(idx: usize, line: &str, dir: &str, stage_bin: &str, out: &mut Out) {
         } else {
             Exec::cmd(stage_bin).arg("stage").arg(stages[i])
         };
+        // perr=<digits>: these commands have a stderr pipe of their own (`Exec::stderr(Redirection::Pipe)` inside a pipeline);
+        // its read end lives in that command's Popen
+        let e = if spec.get("perr").contains(&i.to_string()) && i < 10 { e.stderr(Redirection::Pipe) } else { e };
         if det.get(i).cloned().unwrap_or(false) {
             e.detached()
         } else {
